@@ -182,7 +182,7 @@ Proof. vm_compute. repeat split; reflexivity. Qed.
 (* ------------------------------------------------------------------------------------------------------
    Added in build session 4 (statements re-stated from the proof files by harness tooling; each is closed by
    exact). *)
-From SplipyModel Require Import Proofs.CompositeShapes Gen.DiscSquare Proofs.DiscSquareTie.
+From SplipyModel Require Import Proofs.CompositeShapes Gen.DiscSquare Proofs.DiscSquareTie Proofs.ThreePoint.
 Open Scope R_scope.
 Theorem C13_sphere_from_revolve_net :
   forall (prof seg : list (list R)) (M N : list R),
@@ -384,12 +384,11 @@ Theorem C13_radial_interpolation :
 Proof. exact @radial_interpolation. Qed.
 Print Assumptions C13_radial_interpolation.
 
-(* about the net REGENERATED from surface_factory.disc (Gen/DiscSquare.v) *)
 Theorem C13_disc_square_boundary :
   forall r w b0 b1 b2 : R,
          w * w = 1 / 2 ->
          b1 * b1 = 4 * (b0 * b2) ->
-         let net := @disc_square_net_gen R NumR r w in
+         let net := disc_square_net_gen r w in
          forall i0 i1 i2 : nat,
          In (i0, i1, i2) [(0%nat, 1%nat, 2%nat); (6%nat, 7%nat, 8%nat); (0%nat, 3%nat, 6%nat); (2%nat, 5%nat, 8%nat)] ->
          let P0 := nth i0 net [] in
@@ -398,10 +397,9 @@ Theorem C13_disc_square_boundary :
          blend3 hx P0 P1 P2 b0 b1 b2 * blend3 hx P0 P1 P2 b0 b1 b2 +
          blend3 hy P0 P1 P2 b0 b1 b2 * blend3 hy P0 P1 P2 b0 b1 b2 =
          r * r * (blend3 hw P0 P1 P2 b0 b1 b2 * blend3 hw P0 P1 P2 b0 b1 b2) /\ hw P0 = 1 /\ hw P1 = w /\ hw P2 = 1.
-Proof. exact disc_square_gen_boundary. Qed.
+Proof. exact @disc_square_gen_boundary. Qed.
 Print Assumptions C13_disc_square_boundary.
 
-(* about the net REGENERATED from surface_factory.disc (Gen/DiscSquare.v) *)
 Theorem C13_disc_square_inside :
   forall r w a0 a1 a2 b0 b1 b2 : R,
          w * w = 1 / 2 ->
@@ -416,12 +414,12 @@ Theorem C13_disc_square_inside :
          b1 * b1 = 4 * (b0 * b2) ->
          a0 + a1 + a2 = 1 ->
          b0 + b1 + b2 = 1 ->
-         let net := @disc_square_net_gen R NumR r w in
+         let net := disc_square_net_gen r w in
          let X := blend33 hx net a0 a1 a2 b0 b1 b2 in
          let Y := blend33 hy net a0 a1 a2 b0 b1 b2 in
          let W := blend33 hw net a0 a1 a2 b0 b1 b2 in
          0 < W /\ X * X + Y * Y <= r * r * (W * W) /\ X / W * (X / W) + Y / W * (Y / W) <= r * r.
-Proof. exact disc_square_gen_inside. Qed.
+Proof. exact @disc_square_gen_inside. Qed.
 Print Assumptions C13_disc_square_inside.
 
 Theorem C13_placement_frame :
@@ -485,4 +483,305 @@ Theorem C13_solid_cylinder_placed :
          rad2 d (nrm cp sp ct st) <= r * r /\ (0 <= v <= 1 -> 0 <= h -> 0 <= dot3 d (nrm cp sp ct st) <= h).
 Proof. exact @solid_cylinder_placed. Qed.
 Print Assumptions C13_solid_cylinder_placed.
+
+Theorem C13_three_point_determinant :
+  forall P0 P1 P2 : list R, det3 (tp_mat P0 P1 P2) = 4 * dot3 (tp_normal P0 P1 P2) (tp_normal P0 P1 P2).
+Proof. exact @tp_det. Qed.
+Print Assumptions C13_three_point_determinant.
+
+Theorem C13_three_point_circumcentre :
+  forall P0 P1 P2 : list R,
+         dot3 (tp_normal P0 P1 P2) (tp_normal P0 P1 P2) <> 0 ->
+         dot3 (sub3 P0 (tp_centre P0 P1 P2)) (sub3 P0 (tp_centre P0 P1 P2)) = tp_radius P0 P1 P2 * tp_radius P0 P1 P2 /\
+         dot3 (sub3 P1 (tp_centre P0 P1 P2)) (sub3 P1 (tp_centre P0 P1 P2)) = tp_radius P0 P1 P2 * tp_radius P0 P1 P2 /\
+         dot3 (sub3 P2 (tp_centre P0 P1 P2)) (sub3 P2 (tp_centre P0 P1 P2)) = tp_radius P0 P1 P2 * tp_radius P0 P1 P2 /\
+         dot3 (tp_normal P0 P1 P2) (sub3 (tp_centre P0 P1 P2) P0) = 0 /\
+         dot3 (tp_normal P0 P1 P2) (sub3 (tp_centre P0 P1 P2) P1) = 0 /\
+         dot3 (tp_normal P0 P1 P2) (sub3 (tp_centre P0 P1 P2) P2) = 0 /\ 0 < tp_radius P0 P1 P2.
+Proof. exact @tp_circumcentre. Qed.
+Print Assumptions C13_three_point_circumcentre.
+
+Theorem C13_three_point_circumcentre_unique :
+  forall P0 P1 P2 : list R,
+         dot3 (tp_normal P0 P1 P2) (tp_normal P0 P1 P2) <> 0 ->
+         forall y0 y1 y2 : R,
+         let Y := [y0; y1; y2] in
+         dot3 (tp_normal P0 P1 P2) (sub3 Y P0) = 0 ->
+         dot3 (sub3 P1 Y) (sub3 P1 Y) = dot3 (sub3 P0 Y) (sub3 P0 Y) ->
+         dot3 (sub3 P2 Y) (sub3 P2 Y) = dot3 (sub3 P0 Y) (sub3 P0 Y) -> Y = tp_centre P0 P1 P2.
+Proof. exact @tp_circumcentre_unique. Qed.
+Print Assumptions C13_three_point_circumcentre_unique.
+
+Theorem C13_three_point_solve_is_centre :
+  forall P0 P1 P2 : list R,
+         dot3 (tp_normal P0 P1 P2) (tp_normal P0 P1 P2) <> 0 ->
+         forall x0 x1 x2 : R,
+         solves3 (tp_mat P0 P1 P2) (tp_rhs P0 P1 P2) [x0; x1; x2] -> [x0; x1; x2] = tp_centre P0 P1 P2.
+Proof. exact @tp_solve_is_centre. Qed.
+Print Assumptions C13_three_point_solve_is_centre.
+
+Theorem C13_three_point_arc :
+  forall a0 a1 a2 b0 b1 b2 c0 c1 c2 : R,
+         dot3 (tp_normal [a0; a1; a2] [b0; b1; b2] [c0; c1; c2]) (tp_normal [a0; a1; a2] [b0; b1; b2] [c0; c1; c2]) <>
+         0 ->
+         forall cp sp ct st : R,
+         cp * cp + sp * sp = 1 ->
+         ct * ct + st * st = 1 ->
+         nrm cp sp ct st = tp_unit_normal [a0; a1; a2] [b0; b1; b2] [c0; c1; c2] ->
+         forall ca sa rho' : R,
+         ca * ca + sa * sa = 1 ->
+         0 < rho' ->
+         nth 0
+           (rv
+              (rv (sub3 [a0; a1; a2] (tp_centre [a0; a1; a2] [b0; b1; b2] [c0; c1; c2]))
+                 (rotmat ct (0 - 0 * (0 - st)) (0 - 0 * (0 - st)) (0 - 1 * (0 - st))))
+              (rotmat cp (0 - 0 * (0 - sp)) (0 - 1 * (0 - sp)) (0 - 0 * (0 - sp)))) 0 = rho' * (ca * ca - sa * sa) ->
+         nth 1
+           (rv
+              (rv (sub3 [a0; a1; a2] (tp_centre [a0; a1; a2] [b0; b1; b2] [c0; c1; c2]))
+                 (rotmat ct (0 - 0 * (0 - st)) (0 - 0 * (0 - st)) (0 - 1 * (0 - st))))
+              (rotmat cp (0 - 0 * (0 - sp)) (0 - 1 * (0 - sp)) (0 - 0 * (0 - sp)))) 0 = rho' * (2 * sa * ca) ->
+         forall theta0 rho : R,
+         - PI < theta0 <= PI ->
+         0 < rho ->
+         dot3 (sub3 [a0; a1; a2] (tp_centre [a0; a1; a2] [b0; b1; b2] [c0; c1; c2]))
+           (sub3 [c0; c1; c2] (tp_centre [a0; a1; a2] [b0; b1; b2] [c0; c1; c2])) = rho * cos theta0 ->
+         dot3
+           (cross3 (sub3 [a0; a1; a2] (tp_centre [a0; a1; a2] [b0; b1; b2] [c0; c1; c2]))
+              (sub3 [c0; c1; c2] (tp_centre [a0; a1; a2] [b0; b1; b2] [c0; c1; c2])))
+           (tp_unit_normal [a0; a1; a2] [b0; b1; b2] [c0; c1; c2]) = rho * sin theta0 ->
+         (forall t : R,
+          dot3
+            (sub3 (tp_point a0 a1 a2 b0 b1 b2 c0 c1 c2 cp sp ct st ca sa t)
+               (tp_centre [a0; a1; a2] [b0; b1; b2] [c0; c1; c2]))
+            (sub3 (tp_point a0 a1 a2 b0 b1 b2 c0 c1 c2 cp sp ct st ca sa t)
+               (tp_centre [a0; a1; a2] [b0; b1; b2] [c0; c1; c2])) =
+          tp_radius [a0; a1; a2] [b0; b1; b2] [c0; c1; c2] * tp_radius [a0; a1; a2] [b0; b1; b2] [c0; c1; c2] /\
+          dot3 (tp_normal [a0; a1; a2] [b0; b1; b2] [c0; c1; c2])
+            (sub3 (tp_point a0 a1 a2 b0 b1 b2 c0 c1 c2 cp sp ct st ca sa t)
+               (tp_centre [a0; a1; a2] [b0; b1; b2] [c0; c1; c2])) = 0) /\
+         tp_point a0 a1 a2 b0 b1 b2 c0 c1 c2 cp sp ct st ca sa 0 = [a0; a1; a2] /\
+         0 < tp_sweep theta0 < 2 * PI /\
+         tp_point a0 a1 a2 b0 b1 b2 c0 c1 c2 cp sp ct st ca sa (tp_sweep theta0) = [c0; c1; c2] /\
+         (forall beta : R,
+          0 <= beta < 2 * PI ->
+          cos beta =
+          dot3 (sub3 [a0; a1; a2] (tp_centre [a0; a1; a2] [b0; b1; b2] [c0; c1; c2]))
+            (sub3 [b0; b1; b2] (tp_centre [a0; a1; a2] [b0; b1; b2] [c0; c1; c2])) /
+          (tp_radius [a0; a1; a2] [b0; b1; b2] [c0; c1; c2] * tp_radius [a0; a1; a2] [b0; b1; b2] [c0; c1; c2]) ->
+          sin beta =
+          dot3
+            (cross3 (sub3 [a0; a1; a2] (tp_centre [a0; a1; a2] [b0; b1; b2] [c0; c1; c2]))
+               (sub3 [b0; b1; b2] (tp_centre [a0; a1; a2] [b0; b1; b2] [c0; c1; c2])))
+            (tp_unit_normal [a0; a1; a2] [b0; b1; b2] [c0; c1; c2]) /
+          (tp_radius [a0; a1; a2] [b0; b1; b2] [c0; c1; c2] * tp_radius [a0; a1; a2] [b0; b1; b2] [c0; c1; c2]) ->
+          0 < beta < tp_sweep theta0 /\ tp_point a0 a1 a2 b0 b1 b2 c0 c1 c2 cp sp ct st ca sa beta = [b0; b1; b2]) /\
+         dot3 (sub3 [a0; a1; a2] (tp_centre [a0; a1; a2] [b0; b1; b2] [c0; c1; c2]))
+           (sub3 [b0; b1; b2] (tp_centre [a0; a1; a2] [b0; b1; b2] [c0; c1; c2])) /
+         (tp_radius [a0; a1; a2] [b0; b1; b2] [c0; c1; c2] * tp_radius [a0; a1; a2] [b0; b1; b2] [c0; c1; c2]) *
+         (dot3 (sub3 [a0; a1; a2] (tp_centre [a0; a1; a2] [b0; b1; b2] [c0; c1; c2]))
+            (sub3 [b0; b1; b2] (tp_centre [a0; a1; a2] [b0; b1; b2] [c0; c1; c2])) /
+          (tp_radius [a0; a1; a2] [b0; b1; b2] [c0; c1; c2] * tp_radius [a0; a1; a2] [b0; b1; b2] [c0; c1; c2])) +
+         dot3
+           (cross3 (sub3 [a0; a1; a2] (tp_centre [a0; a1; a2] [b0; b1; b2] [c0; c1; c2]))
+              (sub3 [b0; b1; b2] (tp_centre [a0; a1; a2] [b0; b1; b2] [c0; c1; c2])))
+           (tp_unit_normal [a0; a1; a2] [b0; b1; b2] [c0; c1; c2]) /
+         (tp_radius [a0; a1; a2] [b0; b1; b2] [c0; c1; c2] * tp_radius [a0; a1; a2] [b0; b1; b2] [c0; c1; c2]) *
+         (dot3
+            (cross3 (sub3 [a0; a1; a2] (tp_centre [a0; a1; a2] [b0; b1; b2] [c0; c1; c2]))
+               (sub3 [b0; b1; b2] (tp_centre [a0; a1; a2] [b0; b1; b2] [c0; c1; c2])))
+            (tp_unit_normal [a0; a1; a2] [b0; b1; b2] [c0; c1; c2]) /
+          (tp_radius [a0; a1; a2] [b0; b1; b2] [c0; c1; c2] * tp_radius [a0; a1; a2] [b0; b1; b2] [c0; c1; c2])) = 1.
+Proof. exact @three_point_arc. Qed.
+Print Assumptions C13_three_point_arc.
+
+Theorem C13_three_point_arc_through_middle :
+  forall a0 a1 a2 b0 b1 b2 c0 c1 c2 : R,
+         dot3 (tp_normal [a0; a1; a2] [b0; b1; b2] [c0; c1; c2]) (tp_normal [a0; a1; a2] [b0; b1; b2] [c0; c1; c2]) <>
+         0 ->
+         forall cp sp ct st : R,
+         cp * cp + sp * sp = 1 ->
+         ct * ct + st * st = 1 ->
+         nrm cp sp ct st = tp_unit_normal [a0; a1; a2] [b0; b1; b2] [c0; c1; c2] ->
+         forall ca sa rho' : R,
+         ca * ca + sa * sa = 1 ->
+         0 < rho' ->
+         nth 0
+           (rv
+              (rv (sub3 [a0; a1; a2] (tp_centre [a0; a1; a2] [b0; b1; b2] [c0; c1; c2]))
+                 (rotmat ct (0 - 0 * (0 - st)) (0 - 0 * (0 - st)) (0 - 1 * (0 - st))))
+              (rotmat cp (0 - 0 * (0 - sp)) (0 - 1 * (0 - sp)) (0 - 0 * (0 - sp)))) 0 = rho' * (ca * ca - sa * sa) ->
+         nth 1
+           (rv
+              (rv (sub3 [a0; a1; a2] (tp_centre [a0; a1; a2] [b0; b1; b2] [c0; c1; c2]))
+                 (rotmat ct (0 - 0 * (0 - st)) (0 - 0 * (0 - st)) (0 - 1 * (0 - st))))
+              (rotmat cp (0 - 0 * (0 - sp)) (0 - 1 * (0 - sp)) (0 - 0 * (0 - sp)))) 0 = rho' * (2 * sa * ca) ->
+         forall theta0 rho : R,
+         - PI < theta0 <= PI ->
+         0 < rho ->
+         dot3 (sub3 [a0; a1; a2] (tp_centre [a0; a1; a2] [b0; b1; b2] [c0; c1; c2]))
+           (sub3 [c0; c1; c2] (tp_centre [a0; a1; a2] [b0; b1; b2] [c0; c1; c2])) = rho * cos theta0 ->
+         dot3
+           (cross3 (sub3 [a0; a1; a2] (tp_centre [a0; a1; a2] [b0; b1; b2] [c0; c1; c2]))
+              (sub3 [c0; c1; c2] (tp_centre [a0; a1; a2] [b0; b1; b2] [c0; c1; c2])))
+           (tp_unit_normal [a0; a1; a2] [b0; b1; b2] [c0; c1; c2]) = rho * sin theta0 ->
+         exists beta : R,
+           0 < beta < tp_sweep theta0 /\ tp_point a0 a1 a2 b0 b1 b2 c0 c1 c2 cp sp ct st ca sa beta = [b0; b1; b2].
+Proof. exact @three_point_arc_through_middle. Qed.
+Print Assumptions C13_three_point_arc_through_middle.
+
+Theorem C13_three_point_arc_planar :
+  forall a0 a1 a2 b0 b1 b2 c0 c1 c2 : R,
+         dot3 (tp_normal [a0; a1; a2] [b0; b1; b2] [c0; c1; c2]) (tp_normal [a0; a1; a2] [b0; b1; b2] [c0; c1; c2]) <>
+         0 ->
+         forall cp sp ct st : R,
+         cp * cp + sp * sp = 1 ->
+         ct * ct + st * st = 1 ->
+         nrm cp sp ct st = tp_unit_normal [a0; a1; a2] [b0; b1; b2] [c0; c1; c2] ->
+         forall ca sa rho' : R,
+         ca * ca + sa * sa = 1 ->
+         0 < rho' ->
+         nth 0
+           (rv
+              (rv (sub3 [a0; a1; a2] (tp_centre [a0; a1; a2] [b0; b1; b2] [c0; c1; c2]))
+                 (rotmat ct (0 - 0 * (0 - st)) (0 - 0 * (0 - st)) (0 - 1 * (0 - st))))
+              (rotmat cp (0 - 0 * (0 - sp)) (0 - 1 * (0 - sp)) (0 - 0 * (0 - sp)))) 0 = rho' * (ca * ca - sa * sa) ->
+         nth 1
+           (rv
+              (rv (sub3 [a0; a1; a2] (tp_centre [a0; a1; a2] [b0; b1; b2] [c0; c1; c2]))
+                 (rotmat ct (0 - 0 * (0 - st)) (0 - 0 * (0 - st)) (0 - 1 * (0 - st))))
+              (rotmat cp (0 - 0 * (0 - sp)) (0 - 1 * (0 - sp)) (0 - 0 * (0 - sp)))) 0 = rho' * (2 * sa * ca) ->
+         forall t : R,
+         a2 = 0 -> b2 = 0 -> c2 = 0 -> nth 2 (tp_point a0 a1 a2 b0 b1 b2 c0 c1 c2 cp sp ct st ca sa t) 0 = 0.
+Proof. exact @three_point_arc_planar. Qed.
+Print Assumptions C13_three_point_arc_planar.
+
+Theorem C13_three_point_arc_instance :
+  tp_centre [1; 0; 0] [0; 1; 0] [-1; 0; 0] = [0; 0; 0] /\
+         tp_radius [1; 0; 0] [0; 1; 0] [-1; 0; 0] = 1 /\
+         tp_point 1 0 0 0 1 0 (-1) 0 0 1 0 1 0 1 0 0 = [1; 0; 0] /\
+         tp_point 1 0 0 0 1 0 (-1) 0 0 1 0 1 0 1 0 PI = [-1; 0; 0] /\
+         (exists beta : R, 0 < beta < PI /\ tp_point 1 0 0 0 1 0 (-1) 0 0 1 0 1 0 1 0 beta = [0; 1; 0]).
+Proof. exact @three_point_arc_instance. Qed.
+Print Assumptions C13_three_point_arc_instance.
+
+Theorem C13_ngon_ccw :
+  forall (n : nat) (r : R),
+         (3 <= n)%nat ->
+         0 < r ->
+         forall i : nat,
+         ngon_x n r i * ngon_y n r (S i) - ngon_y n r i * ngon_x n r (S i) = r * r * sin (ngon_dt n) /\
+         0 < r * r * sin (ngon_dt n).
+Proof. exact @ngon_ccw. Qed.
+Print Assumptions C13_ngon_ccw.
+
+Theorem C13_ngon_eval :
+  forall (n : nat) (r : R),
+         (3 <= n)%nat ->
+         forall (side : bool) (m : nat) (t : R),
+         (1 <= m <= n)%nat ->
+         in_span side (INR m - 1) (INR m) t ->
+         let k := BasisDef.kn (ngon_knots n) in
+         let lam := t - (INR m - 1) in
+         let Px := sumf (fun j : nat => nth 0 (nth (j mod n) (ngon_cps n r) []) 0 * B side k 1 j t) 0 (S n) in
+         let Py := sumf (fun j : nat => nth 1 (nth (j mod n) (ngon_cps n r) []) 0 * B side k 1 j t) 0 (S n) in
+         Px = (1 - lam) * ngon_x n r (m - 1) + lam * ngon_x n r m /\
+         Py = (1 - lam) * ngon_y n r (m - 1) + lam * ngon_y n r m /\ 0 <= lam <= 1 /\ Px * Px + Py * Py <= r * r.
+Proof. exact @ngon_eval. Qed.
+Print Assumptions C13_ngon_eval.
+
+Theorem C13_ngon_placed :
+  forall cp sp ct st : R,
+         cp * cp + sp * sp = 1 ->
+         ct * ct + st * st = 1 ->
+         forall (centre : list R) (n : nat) (r : R),
+         (3 <= n)%nat ->
+         0 < r ->
+         forall i : nat,
+         let Q := fun j : nat => place cp sp ct st centre [ngon_x n r j; ngon_y n r j; 0] in
+         dot3 (sub3 (Q i) centre) (nrm cp sp ct st) = 0 /\
+         dot3 (sub3 (Q i) centre) (sub3 (Q i) centre) = r * r /\
+         cross3 (sub3 (Q i) centre) (sub3 (Q (S i)) centre) = scal3 (r * r * sin (ngon_dt n)) (nrm cp sp ct st) /\
+         0 < r * r * sin (ngon_dt n) /\ Q 0%nat = add3 (scal3 r (rot cp sp ct st [1; 0; 0])) centre.
+Proof. exact @ngon_placed. Qed.
+Print Assumptions C13_ngon_placed.
+
+Theorem C13_line_eval :
+  forall (side : bool) (a b : list R) (relative : bool) (t : R) (c : nat),
+         in_span side 0 1 t ->
+         let cps := line_cps a b relative in
+         length cps = 2%nat /\
+         sumf (fun i : nat => nth c (nth i cps []) 0 * B side (BasisDef.kn unit_knots) 1 i t) 0 2 =
+         (1 - t) * nth c a 0 + t * nth c (nth 1 cps []) 0.
+Proof. exact @line_eval. Qed.
+Print Assumptions C13_line_eval.
+
+Theorem C13_polygon_eval :
+  forall (side : bool) (k c : nat -> R) (m N : nat) (t : R),
+         sorted k ->
+         (1 <= m <= N)%nat ->
+         in_span side (k m) (k (S m)) t ->
+         let lam := w (k m) (k (m + 1)%nat) t in
+         sumf (fun i : nat => c i * B side k 1 i t) 0 (S N) = (1 - lam) * c (m - 1)%nat + lam * c m /\ 0 <= lam <= 1.
+Proof. exact @polygon_eval. Qed.
+Print Assumptions C13_polygon_eval.
+
+Theorem C13_polygon_interpolates :
+  forall (k c : nat -> R) (m N : nat),
+         sorted k ->
+         (1 <= m <= N)%nat -> k m < k (S m) -> sumf (fun i : nat => c i * B true k 1 i (k m)) 0 (S N) = c (m - 1)%nat.
+Proof. exact @polygon_interpolates. Qed.
+Print Assumptions C13_polygon_interpolates.
+
+Theorem C13_square_model :
+  forall sx sy lx ly : R,
+         match obj_scale (DefaultObj.default_obj [unit_basis; unit_basis]) [sx; sy] with
+         | Ok o1 => obj_translate o1 [lx; ly]
+         | Err e => Err e
+         end =
+         Ok
+           {|
+             Obj.o_bases := [unit_basis; unit_basis];
+             Obj.o_cps := square_net sx sy lx ly;
+             Obj.o_dim := 2;
+             Obj.o_rat := false
+           |}.
+Proof. exact @square_model. Qed.
+Print Assumptions C13_square_model.
+
+Theorem C13_square_eval :
+  forall (su sv : bool) (u v sx sy lx ly : R),
+         in_span su 0 1 u ->
+         in_span sv 0 1 v ->
+         Tensor.teval 2 [OrderRaise.Brow su unit_knots 2 u; OrderRaise.Brow sv unit_knots 2 v] (square_net sx sy lx ly) =
+         [lx + u * sx; ly + v * sy].
+Proof. exact @square_eval. Qed.
+Print Assumptions C13_square_eval.
+
+Theorem C13_cube_model :
+  forall sx sy sz lx ly lz : R,
+         match obj_scale (DefaultObj.default_obj [unit_basis; unit_basis; unit_basis]) [sx; sy; sz] with
+         | Ok o1 => obj_translate o1 [lx; ly; lz]
+         | Err e => Err e
+         end =
+         Ok
+           {|
+             Obj.o_bases := [unit_basis; unit_basis; unit_basis];
+             Obj.o_cps := cube_net sx sy sz lx ly lz;
+             Obj.o_dim := 3;
+             Obj.o_rat := false
+           |}.
+Proof. exact @cube_model. Qed.
+Print Assumptions C13_cube_model.
+
+Theorem C13_cube_eval :
+  forall (su sv sw : bool) (u v w' sx sy sz lx ly lz : R),
+         in_span su 0 1 u ->
+         in_span sv 0 1 v ->
+         in_span sw 0 1 w' ->
+         Tensor.teval 3
+           [OrderRaise.Brow su unit_knots 2 u; OrderRaise.Brow sv unit_knots 2 v; OrderRaise.Brow sw unit_knots 2 w']
+           (cube_net sx sy sz lx ly lz) = [lx + u * sx; ly + v * sy; lz + w' * sz].
+Proof. exact @cube_eval. Qed.
+Print Assumptions C13_cube_eval.
 
